@@ -323,7 +323,7 @@ class DOK(SparseArray, NDArrayOperatorsMixin):
         if not isinstance(key, tuple):
             key = (key,)
 
-        if all(isinstance(k, Iterable) for k in key):
+        if key and all(isinstance(k, Iterable) for k in key):
             if len(key) != self.ndim:
                 raise NotImplementedError(f"Index sequences for all {self.ndim} array dimensions needed!")
             if not all(len(key[0]) == len(k) for k in key):
@@ -338,6 +338,8 @@ class DOK(SparseArray, NDArrayOperatorsMixin):
 
     def _fancy_getitem(self, key):
         """Subset of fancy indexing, when all dimensions are accessed"""
+        # bounds check; negative entries count from the end; a boolean mask selects its True positions
+        key = normalize_index(key, self.shape)
         new_data = {}
         for i, k in enumerate(zip(*key, strict=True)):
             if k in self.data:
